@@ -44,17 +44,17 @@ def restart (s : Sess α) : Sess α :=
     it, the others untouched).  `restart` is the case in which every block reloads to itself
     (`C13.restartR_eq_restart`). -/
 def reloadBlocks (reload : Block α → Except (Block α) (Block α)) :
-    List (Block α) → List (Block α) → Except (List (Block α)) (List (Block α))
+    List (Block α) → List (Block α) → Except (List (Block α) × Block α × List (Block α)) (List (Block α))
   | [], done => .ok done
   | b :: bs, done =>
     match reload b with
     | .ok b' => reloadBlocks reload bs (done ++ [b'])
-    | .error b' => .error (done ++ b' :: bs)
+    | .error b' => .error (done, b', bs)             -- reloaded so far, the failing block as it was left, not reached
 
 def restartR (reload : Block α → Except (Block α) (Block α)) (s : Sess α) : Except (Sess α) (Sess α) :=
   let e1 := setInputs s.engine (s.engine.inputs.map (fun _ => X.nan))
   match reloadBlocks reload e1.blocks [] with
-  | .error bs => .error { engine := { e1 with blocks := bs }, outs := s.outs }
+  | .error (done, b, rest) => .error { engine := { e1 with blocks := done ++ b :: rest }, outs := s.outs }
   | .ok bs => .ok { engine := { e1 with blocks := bs }, outs := clearedOuts s.engine }
 
 def values (s : Sess α) : List (X α) := s.outs.map (fun o => Op.lastOr .nan o.value)
